@@ -18,7 +18,7 @@ from hypothesis import strategies as st
 
 from vlib import core, tools
 from vlib.core import Check, Discard, Inconclusive, OracleSplit, Violation
-from checks.c12 import replay_inproc, run_inproc
+from checks.c12 import patient, replay_inproc, run_inproc
 
 REGS64 = ["rax", "rcx", "rdx", "rbx", "rbp", "rsi", "rdi", "r8", "r9", "r10", "r11", "r12", "r13"]
 REGS32 = ["eax", "ecx", "edx", "ebx", "ebp", "esi", "edi", "r8d", "r9d", "r10d", "r11d", "r12d", "r13d"]
@@ -83,6 +83,10 @@ def known_domain(case):
             sig = f"{s['op']}:rexw-imm32-zero-extended"
             if sig in _KNOWN:
                 return sig
+            # once the relaxation uses the sign-extending R_X86_64_32S these values no longer fit the
+            # imm32 form and join the link-failure finding
+            if "link-fails:relaxed-imm32-overflow" in _KNOWN:
+                return "link-fails:relaxed-imm32-overflow"
         if relaxed_to_imm(s) and s["w"] and v >= 2**32 and "link-fails:relaxed-imm32-overflow" in _KNOWN:
             return "link-fails:relaxed-imm32-overflow"
     return None
@@ -233,7 +237,7 @@ class C14(Check):
     def setup(self, tier):
         d = os.path.join(core.TARGET, "c14")
         os.makedirs(d, exist_ok=True)
-        tools.cc(MAIN_C, os.path.join(d, "main.o"), flags=["-O1", "-fno-pie"], cwd=d)
+        patient(tools.cc, MAIN_C, os.path.join(d, "main.o"), flags=["-O1", "-fno-pie"], cwd=d)
         self.main_o = os.path.join(d, "main.o")
 
     def strategy(self, tier):
@@ -252,16 +256,20 @@ class C14(Check):
             if s["t"] == "got" and not s["w"] and s["sym"]["kind"] == "absolute":
                 s["sym"] = dict(s["sym"], value=s["sym"]["value"] % 2**32)
         sites_s, syms_s = gen_sources(sites)
-        tools.asm(sites_s, "sites.o", cwd=d)
-        tools.asm(syms_s, "syms.o", cwd=d)
+        patient(tools.asm, sites_s, "sites.o", cwd=d)
+        patient(tools.asm, syms_s, "syms.o", cwd=d)
         main_o = getattr(self, "main_o", None) or os.path.join(core.TARGET, "c14", "main.o")
         results = {}
         for L in ("ld", "wild"):
-            r = tools.cc_link(L, ["-static", "-no-pie", "-o", f"{L}.exe", main_o, "sites.o", "syms.o"], cwd=d)
+            r = patient(tools.cc_link, L, ["-static", "-no-pie", "-o", f"{L}.exe", main_o, "sites.o", "syms.o"], cwd=d, timeout=240)
+            if r.timed_out:
+                raise Inconclusive(f"link with {L} timed out three times")
             if r.rc != 0:
                 results[L] = ("linkfail", r.err.strip()[-400:])
                 continue
-            x = tools.run_exe(f"{d}/{L}.exe", cwd=d)
+            x = patient(tools.run_exe, f"{d}/{L}.exe", cwd=d, timeout=60)
+            if x.timed_out:
+                raise Inconclusive(f"the binary linked by {L} timed out three times")
             rows = parse_output(x.out, len(sites)) if x.rc == 0 else None
             results[L] = ("ran", rows, x.rc, x.err[-200:])
         if results["ld"][0] == "linkfail":
